@@ -998,9 +998,33 @@ func (vc *VC) unop(x *ssa.UnOp, st *State) {
 	case token.MUL: // load
 		vc.nilCheckAddr(x.X, x.Pos())
 		t := x.Type()
+		// a local variable cell written exactly once (before being captured by closures that only read
+		// it) always holds that value, whatever is called in between
+		if al, ok := x.X.(*ssa.Alloc); ok && !isStruct(t) && !isArray(t) {
+			if sv, ok := vc.constCell(al); ok {
+				if _, done := vc.vals[sv]; done || isConstLike(sv) {
+					vc.setVal(x, vc.val(sv).S)
+					return
+				}
+			}
+		}
 		term := vc.load(st, x.X, t)
 		tv := vc.defVal(x, term)
 		vc.assume(vc.guard(), vc.typeInv(t, tv.S, st))
+		// a field that is only written while its object is being constructed has, for every object that
+		// existed at function entry, the value it had at entry (whatever was called in between)
+		if fa, ok := x.X.(*ssa.FieldAddr); ok && !isStruct(t) && !isArray(t) {
+			pt := fa.X.Type().Underlying().(*types.Pointer).Elem()
+			key := fieldKey(pt, fa.Field)
+			if vc.prog.fieldImmutable(key) {
+				base := vc.val(fa.X).S
+				entry := vc.heapRead(vc.entrySt, key, t, base)
+				if entry != term {
+					vc.assumeNote("fields written only during construction keep their value (whole-module scan of stores on every run)")
+					vc.assume(vc.guard(), imp(sx("<", sx("rt", base), vc.entrySt.nextId), eq(tv.S, entry)))
+				}
+			}
+		}
 		// package-level error variables (io.EOF, bufio.ErrBufferFull, ErrBad...) are initialised
 		// once with errors.New and never nil
 		if g, ok := x.X.(*ssa.Global); ok && types.Identical(t, types.Universe.Lookup("error").Type()) &&
@@ -1457,4 +1481,69 @@ func (vc *VC) registerKeys() {
 			}
 		}
 	}
+}
+
+func isConstLike(v ssa.Value) bool {
+	switch v.(type) {
+	case *ssa.Const, *ssa.Parameter, *ssa.Global, *ssa.Function:
+		return true
+	}
+	return false
+}
+
+// constCell: the single value ever stored into a local cell, if the cell is stored exactly once in its
+// function (in the entry block) and never by the closures that capture it, and its address does not
+// otherwise escape.
+func (vc *VC) constCell(al *ssa.Alloc) (ssa.Value, bool) {
+	var stored ssa.Value
+	n := 0
+	for _, r := range *al.Referrers() {
+		switch u := r.(type) {
+		case *ssa.Store:
+			if u.Addr != ssa.Value(al) {
+				return nil, false
+			}
+			n++
+			stored = u.Val
+			if u.Block() != al.Parent().Blocks[0] {
+				return nil, false
+			}
+		case *ssa.UnOp, *ssa.DebugRef:
+		case *ssa.MakeClosure:
+			fn := u.Fn.(*ssa.Function)
+			for i, b := range u.Bindings {
+				if b == ssa.Value(al) && !freeVarOnlyRead(fn, i, 0) {
+					return nil, false
+				}
+			}
+		default:
+			return nil, false
+		}
+	}
+	if n != 1 {
+		return nil, false
+	}
+	return stored, true
+}
+
+func freeVarOnlyRead(fn *ssa.Function, idx int, depth int) bool {
+	if depth > 3 || idx >= len(fn.FreeVars) {
+		return false
+	}
+	fv := fn.FreeVars[idx]
+	for _, r := range *fv.Referrers() {
+		switch u := r.(type) {
+		case *ssa.UnOp, *ssa.DebugRef:
+		case *ssa.MakeClosure:
+			inner := u.Fn.(*ssa.Function)
+			for i, b := range u.Bindings {
+				if b == ssa.Value(fv) && !freeVarOnlyRead(inner, i, depth+1) {
+					return false
+				}
+			}
+		default:
+			return false
+		}
+	}
+	return true
 }
